@@ -772,6 +772,22 @@ def rule_no_ambient_input(cm, rep, rid):
                     amb.append((f, x))
             if isinstance(x, ast.Attribute) and norm(x) == 'os.environ':
                 amb.append((f, x))
+    # where the process runs (working directory, user, host, clock as text): in the code generator / visitor and in the
+    # helpers of other modules they call - not in the command line, which may resolve the paths it opens
+    place = ('os.getcwd', 'os.getcwdb', 'os.path.relpath', 'os.path.abspath', 'os.path.realpath', 'os.path.expanduser',
+             'os.path.expandvars', 'Path.cwd', 'Path.home', 'pathlib.Path.cwd', 'pathlib.Path.home', 'os.getlogin', 'getpass.getuser',
+             'socket.gethostname', 'platform.node', 'platform.platform', 'time.strftime', 'time.ctime', 'time.asctime',
+             'datetime.today', 'date.today', 'datetime.date.today', 'datetime.datetime.today', 'datetime.utcnow', 'datetime.datetime.utcnow')
+    from .callgraph import CallGraph
+    cg_ = CallGraph(cm.repo)
+    side = list(cm.repo.all_functions(('yp_generator', 'yp_prolog_visitor')))
+    helpers = [g for g in cg_.reachable([f for f in side if f.name != '_debug' and f.name != '__getattribute__'], with_refs=False)
+               if g.module.name not in ('yp_generator', 'yp_prolog_visitor', 'compiler') and g.cls is None]
+    for f in [f for f in side if f.name not in ('_debug', '__getattribute__')] + helpers:
+        for x in own_nodes_ordered(f.node):
+            if isinstance(x, ast.Call) and (norm(x.func) in place or (norm(x.func) in ('relpath', 'abspath', 'realpath', 'getcwd', 'expanduser')
+                                                                        and isinstance(x.func, ast.Name))):
+                amb.append((f, x))
     for v in bad:
         rep.violation(rid, 'returned-text<-%s' % _short(v), 'the returned text contains a value that differs between runs (%s)' % (v[1],), entry.loc())
     for f, x in amb:
